@@ -221,6 +221,16 @@ func (p *Program) verifyFunc(t *target) (vc *VC, rep *FuncReport) {
 	for _, rq := range c.Requires {
 		x.assume(st, pre.boolean(rq.Expr))
 	}
+	// replay template (optional): its expressions are bound in the entry environment
+	if p.verifDir != "" {
+		if pl := loadReplayTemplate(p.verifDir, rep.Name); pl != nil {
+			if x.bindReplay(pl, pre) {
+				p.replayPlans[rep.Name] = pl
+			} else {
+				vc.note("replay template " + pl.File + " could not be bound (expression outside the contract language)")
+			}
+		}
+	}
 	// lemmas used: each is proved on its own (possibly over 64-bit vectors) and assumed here; in Int mode this
 	// gives the uninterpreted bit operations the instances the proof needs
 	for _, ln := range c.UsesLemmas {
@@ -455,6 +465,15 @@ func stripParen(e *SExpr) *SExpr {
 func (x *Exec) lockEvent(st *State, lockText, op string, call *ast.CallExpr) {
 	switch op {
 	case "Lock", "RLock":
+		if x.contract != nil && x.contract.Opts["own"] && len(x.inRes) == 0 && x.dry == 0 {
+			x.counts["lock.reacquire"]++
+			goal := "true"
+			if st.held[lockText] {
+				goal = "false"
+			}
+			x.assertNamed(st, fmt.Sprintf("lock.reacquire.%d", x.counts["lock.reacquire"]), "lock", goal,
+				"no "+op+" of "+lockText+" while this function already holds it (sync mutexes are not reentrant: self-deadlock, or deadlock with a waiting writer)", x.posn(call.Pos()))
+		}
 		st.held[lockText] = true
 		if op == "Lock" {
 			st.held[lockText+"#w"] = true
@@ -707,4 +726,50 @@ func (x *Exec) frameObligations(final, entry *State, c *Contract) {
 		x.assertNamed(final, "frame."+sanitize(strings.TrimPrefix(strings.TrimPrefix(strings.TrimPrefix(k, "H:"), "G:"), "V:")), "frame", goal,
 			"not listed in modifies, hence unchanged: "+k, token.Position{Filename: c.File, Line: c.Line})
 	}
+}
+
+// acquiredOnReceiver: the mutex fields of its receiver that fn (or a method it calls on the same receiver)
+// locks. Syntactic, no contract needed: used for the no-reentrancy obligation at call sites.
+func (p *Program) acquiredOnReceiver(fn *types.Func, depth int) map[string]bool {
+	if p.acqMemo == nil {
+		p.acqMemo = map[*types.Func]map[string]bool{}
+	}
+	if m, ok := p.acqMemo[fn]; ok {
+		return m
+	}
+	out := map[string]bool{}
+	p.acqMemo[fn] = out
+	fd := p.funcDecl(fn)
+	if fd == nil || fd.Body == nil || fd.Recv == nil || len(fd.Recv.List) == 0 || len(fd.Recv.List[0].Names) == 0 || depth > 4 {
+		return out
+	}
+	recv := fd.Recv.List[0].Names[0].Name
+	pk := p.declPkg[fn]
+	ast.Inspect(fd.Body, func(n ast.Node) bool {
+		if _, isLit := n.(*ast.FuncLit); isLit {
+			return false // closures (goroutines, deferred work) run on their own
+		}
+		call, ok := n.(*ast.CallExpr)
+		if !ok {
+			return true
+		}
+		sel, ok := unparen(call.Fun).(*ast.SelectorExpr)
+		if !ok {
+			return true
+		}
+		if inner, ok := unparen(sel.X).(*ast.SelectorExpr); ok {
+			if id, ok := unparen(inner.X).(*ast.Ident); ok && id.Name == recv && (sel.Sel.Name == "Lock" || sel.Sel.Name == "RLock") {
+				out[inner.Sel.Name] = true
+			}
+		}
+		if id, ok := unparen(sel.X).(*ast.Ident); ok && id.Name == recv && pk != nil {
+			if callee, ok := pk.TypesInfo.Uses[sel.Sel].(*types.Func); ok {
+				for k := range p.acquiredOnReceiver(callee, depth+1) {
+					out[k] = true
+				}
+			}
+		}
+		return true
+	})
+	return out
 }
